@@ -290,6 +290,9 @@ type connSpec struct {
 	// Pipelined (server role): client bytes that arrive together with the handshake request and are
 	// therefore already buffered in the hijacked bufio.Reader when Accept takes the connection over.
 	Pipelined []byte
+	// DialCtx / DialTimeout (client role): the context Dial runs under (nil = Background) and the http.Client's Timeout
+	DialCtx     context.Context `json:"-"`
+	DialTimeout time.Duration
 }
 
 // libConn is a library connection plus the facts of its handshake.
@@ -306,7 +309,11 @@ type libConn struct {
 func (e *env) open(spec connSpec) (*libConn, error) {
 	lc := &libConn{Spec: spec}
 	if spec.Client {
-		cl, err := wsx.Dial(context.Background(), wsx.ClientCfg{Mode: spec.Mode, Threshold: spec.Threshold, RespExt: spec.Ext})
+		dctx := spec.DialCtx
+		if dctx == nil {
+			dctx = context.Background()
+		}
+		cl, err := wsx.Dial(dctx, wsx.ClientCfg{Mode: spec.Mode, Threshold: spec.Threshold, RespExt: spec.Ext, Timeout: spec.DialTimeout})
 		e.track(cl.Conn, cl.Peer, cl.Lib)
 		if err != nil {
 			return nil, err
